@@ -160,6 +160,7 @@ def project_servermux(beh, rng, ids=("A", "B"), sizes=None, name="", kinds=("cut
     attached = {}
     upf, downf = {}, {}
     cuts = 0
+    gaps = [0]
     classes = set()
 
     def session(i):
@@ -187,6 +188,11 @@ def project_servermux(beh, rng, ids=("A", "B"), sizes=None, name="", kinds=("cut
                         cj["fault"]["kind"] = "cutcli"
                         cj["fault"]["hold_ms"] = rng.choice([200, 600, 1500])
                 if main_live.get(p) is None:
+                    if s["carriers"] and not any(attached.get(j) for j, (r, rid, cj) in role.items() if rid == p):
+                        # every earlier carrier of the session is detached at the server: a gap
+                        # (shorter than the one-minute retention) before the next one arrives
+                        c["delay_ms"] = rng.choice([40, 250, 1200])
+                        gaps[0] += 1
                     s["carriers"].append(c)
                     role[k] = ("main", p, c)
                     main_live[p] = k
@@ -254,7 +260,7 @@ def project_servermux(beh, rng, ids=("A", "B"), sizes=None, name="", kinds=("cut
         if not s["carriers"]:
             s["carriers"].append({"label": "", "ip": None, "pres": "id"})
     sc = {"name": name, "seed": rng.getrandbits(48), "sessions": sessions, "extras": extras, "order": order}
-    info = {"cuts": cuts, "classes": classes, "carriers": len(order), "sessions": len(sessions), "extras": len(extras)}
+    info = {"cuts": cuts, "classes": classes, "carriers": len(order), "sessions": len(sessions), "extras": len(extras), "gaps": gaps[0]}
     return sc, info
 
 
